@@ -45,6 +45,7 @@ use crate::utils::util::bbsplus_utils::calculate_random_scalars;
 use crate::utils::util::bbsplus_utils::seeded_random_scalars;
 
 #[derive(Clone, PartialEq, Eq, Debug, Serialize, Deserialize)]
+#[serde(try_from = "BBSplusPoKSignatureUnchecked")]
 /// Represents a BBS+ Proof of Knowledge Signature.
 pub struct BBSplusPoKSignature {
     Abar: G1Projective,
@@ -55,6 +56,39 @@ pub struct BBSplusPoKSignature {
     r3_cap: Scalar,
     m_cap: Vec<Scalar>,
     challenge: Scalar,
+}
+
+#[derive(Deserialize)]
+struct BBSplusPoKSignatureUnchecked {
+    Abar: G1Projective,
+    Bbar: G1Projective,
+    D: G1Projective,
+    e_cap: Scalar,
+    r1_cap: Scalar,
+    r3_cap: Scalar,
+    m_cap: Vec<Scalar>,
+    challenge: Scalar,
+}
+
+impl TryFrom<BBSplusPoKSignatureUnchecked> for BBSplusPoKSignature {
+    type Error = Error;
+
+    /// Same validity rule as [`BBSplusPoKSignature::from_bytes`]: no proof point may be Identity_G1
+    fn try_from(v: BBSplusPoKSignatureUnchecked) -> Result<Self, Self::Error> {
+        if bool::from(v.Abar.is_identity() | v.Bbar.is_identity() | v.D.is_identity()) {
+            return Err(Error::InvalidProofOfKnowledgeSignature);
+        }
+        Ok(Self {
+            Abar: v.Abar,
+            Bbar: v.Bbar,
+            D: v.D,
+            e_cap: v.e_cap,
+            r1_cap: v.r1_cap,
+            r3_cap: v.r3_cap,
+            m_cap: v.m_cap,
+            challenge: v.challenge,
+        })
+    }
 }
 
 impl BBSplusPoKSignature {
